@@ -285,7 +285,7 @@ class Polygon2D(Base2DIn2D):
         vertices = [Point2D(outer_node.x, outer_node.y)]
         node = outer_node.next
         node_counter, orig_start_i = 0, 0
-        while node.i != start_i:
+        while node is not outer_node:  # bridged nodes are duplicated with the same i
             vertices.append(Point2D(node.x, node.y))
             node_counter += 1
             if node.i == 0:
